@@ -37,3 +37,8 @@ pub fn entities(r: &crate::Reclass, nodes: bool) -> Vec<(String, PathBuf, PathBu
         .map(|(k, v)| (k.clone(), v.path.clone(), v.loc.clone()))
         .collect()
 }
+
+/// `Mapping::try_from_yaml` (the fallible conversion used by `Mapping::from_str` and `Node::from_str`).
+pub fn mapping_try_from_yaml(m: serde_yaml::Mapping) -> Result<crate::types::Mapping> {
+    crate::types::Mapping::try_from_yaml(m)
+}
